@@ -4011,7 +4011,8 @@ namespace detail {
                         {
                             //std::cout << "Not in evaluated properties: " << prop.key() << "\n";
                             const std::size_t error_count = reporter.error_count();
-                            walk_state result = schema_val_->validate(this_context, prop.value() , instance_location, results, reporter, patch);
+                            jsonpointer::json_pointer prop_location = instance_location / prop.name();
+                            walk_state result = schema_val_->validate(this_context, prop.value(), prop_location, results, reporter, patch);
                             if (result == walk_state::abort)
                             {
                                 return result;
